@@ -252,6 +252,14 @@ func runC08(cfg runCfg, res *Result) error {
 			}
 			return nil
 		}
+		if rp.Kind == "watched" {
+			for i := 0; i < 3 && len(res.Mismatches) == 0; i++ {
+				if err := c08Watched(cfg, res, srv, i); err != nil {
+					return err
+				}
+			}
+			return nil
+		}
 		if rp.Kind == "conditional" {
 			for i := 0; i < 3 && len(res.Mismatches) == 0; i++ {
 				if err := c08Conditional(cfg, res, srv, i); err != nil {
